@@ -166,11 +166,11 @@ def exFMap : Gen.RsHermes.HermesFunctionMap :=
   { names := [[97], [98]],
     mappings := [{ line := 1, column := 0, name_index := 0 }, { line := 1, column := 10, name_index := 1 },
       { line := 3, column := 2, name_index := 0 }] }
-def exHermes : Gen.RsHermes.SourceMapHermes := { sm := { tokens := [], names := [] }, function_maps := [some exFMap, none] }
+def exHermes : Gen.RsHermes.SourceMapHermes := { sm := { (default : SmVerif.Gen.RsTypes.SourceMap) with tokens := [], names := [] }, function_maps := [some exFMap, none] }
 def exTok (src line col off : Nat) : Gen.RsTypes.Token :=
   { raw := { dst_line := 0, dst_col := 0, src_line := line, src_col := col, src_id := src,
              name_id := 4294967295, is_range := off ≠ 0 },
-    sm := { tokens := [], names := [] }, idx := 0, offset := off }
+    sm := { (default : SmVerif.Gen.RsTypes.SourceMap) with tokens := [], names := [] }, idx := 0, offset := off }
 
 /-- the hypotheses of `tie_get_scope_for_token_iter` on a concrete token -/
 example : (exTok 0 0 12 0).offset = 0 ∧ (exTok 0 0 12 0).raw.src_col < 2 ^ 32 := by decide
